@@ -62,7 +62,7 @@ type c20Case struct {
 
 var c20Ops = []string{"load", "json", "xml", "upsert", "find", "delete", "constrain", "set", "schema"}
 
-// CaseDeadline: one scenario explores up to 400000 schedules. Cases run in worker processes
+// CaseDeadline: one scenario explores up to 150000 schedules. Cases run in worker processes
 // because a data race in the library can end in a fatal error of the Go runtime (concurrent
 // map writes), which no recover() catches.
 func (p *c20) CaseDeadline() time.Duration { return 3 * time.Hour }
@@ -77,7 +77,8 @@ func (p *c20) Bounds(tier string) map[string]interface{} {
 
 func c20Cap(tier string) int {
 	if tier == "thorough" {
-		return 400000
+		// (400000 until the chain of nested whens tripled the length of every schedule)
+		return 150000
 	}
 	return 60000
 }
